@@ -267,11 +267,17 @@ func (c *Ctx) runProperty(prop string, timeout, seed int, escalate bool, skip fu
 	t1 := time.Now()
 	dir := workDir("check-" + prop)
 	out.results = solveAll(jobs, dir, timeout, seed, escalate, 16)
+	nFn := len(out.results)
+	// regular expressions of the code against the grammar stated in the contract (`regexp` clauses)
+	for _, r := range c.regexResults(prop, dir, timeout, skip) {
+		out.results = append(out.results, r)
+		out.assumed["regexp/syntax gives the language of a Go regular expression; only expressions anchored with ^...$ are compared"] = true
+	}
 	// Second chance, one at a time: with 16 solvers running at once a query that needs a few seconds can run into its
 	// time limit.  Obligations that were not refuted (no `sat`) are tried again alone, with twice the time, before
 	// they are reported; a handful only - a mass failure is not a load problem.
 	var again []int
-	for i := range out.results {
+	for i := range out.results[:nFn] {
 		r := &out.results[i]
 		if !r.OK && !r.Obl.Cover && r.Status != "sat" && !retrySkip[r.Obl.ID] {
 			again = append(again, i)
@@ -772,7 +778,14 @@ func writeReplay(c *Ctx, dir, prop, id, why string, r *Result, out *runOut) (str
 		}
 		rep["solver_output"] = truncate(r.Output, 4000)
 		// concrete replay on the real code
-		if rr := replayOnCode(c, prop, id, d); rr != nil {
+		if r.Obl.Kind == "regexp" {
+			if rr := replayRegexp(r); rr != nil {
+				rep["replay"] = rr
+				if rr["failing_input_found"] == true {
+					found = true
+				}
+			}
+		} else if rr := replayOnCode(c, prop, id, d); rr != nil {
 			rep["replay"] = rr
 			if rr["failing_input_found"] == true {
 				found = true
